@@ -83,6 +83,10 @@ def c10_cases(rng, tier):
         st = rng.choice([0, 1])
         s = '/a/foo.1-5' + pad + '.exr'
         ops = ['S%d' % rng.choice([0, 1]) for _ in range(rng.randint(1, 3))]
+        if rng.random() < 0.5:
+            # a pattern without a frame range (as handed to FindSequenceOnDisk) switched first, the range set afterwards
+            s = '/a/foo.' + pad + '.exr'
+            ops = ops + ['R1-5']
         out.append(case('seqops', [s, st] + ops, '%s style=%d ops=%s' % (s, st, ops), 'style-switch', dict(s=s, st=st, pad=pad, ops=ops)))
     return out
 
@@ -115,6 +119,12 @@ def c10_oracle(c, impl):
             exp = ['-'] + [hx('/a/foo.' + py_zfill(i, w0) + '.exr') for i in range(1, 6)] + ['-']
             if kv['paths'].split(',') != exp:
                 f.append('style switch changed the frame paths')
+            # the pad characters shown after the switches must denote that width under the style now in force
+            final_style = [int(o[1:]) for o in m['ops'] if o.startswith('S')][-1]
+            pad_now = unhx(kv['pad']).decode('latin-1') if 'pad' in kv else None
+            if pad_now is not None and py_pad_size(final_style, pad_now) != w0:
+                f.append('after the style switch the pad characters %r denote width %d under style %d, the sequence has width %d' % (
+                    pad_now, py_pad_size(final_style, pad_now), final_style, w0))
     return f
 
 
@@ -1166,7 +1176,7 @@ def disk_dir(rng, n):
         elif k < 0.27:
             kind = 'LD'
         elif k < 0.3:
-            kind = 'LX'
+            kind = rng.choice(['LX', 'LX', 'LL', 'LN'])      # a link whose Stat fails: missing target, loop, below a file
             dangling = True
         else:
             kind = 'F'
@@ -1431,6 +1441,10 @@ def c14_oracle(c, impl):
             f.append('sequence length %s' % kv['qlen'])
         if unhx(kv['p0']).decode() != '/x/foo.' + py_zfill(a, 4) + '.exr' or unhx(kv['plast']).decode() != '/x/foo.' + py_zfill(last, 4) + '.exr' or kv['pout'] != '-':
             f.append('frame paths at the ends are wrong')
+    if 'M_format' in kv and kv.get('qstr') != 'ERR':
+        exp_f = '%s %d %d %d 4' % (unhx(kv['qstr']).decode(), a, last, n)
+        if unhx(kv['M_format']).decode() != exp_f:
+            f.append('Format of the sequence gave %r, expected %r' % (unhx(kv['M_format']).decode()[:120], exp_f[:120]))
     if int(kv['M_alloc']) > (1 << 20):
         f.append('allocated %s bytes for a single-component range (limit 1 MiB): enumeration?' % kv['M_alloc'])
     if int(kv['M_us']) > 2000000:
